@@ -273,7 +273,7 @@ func replayNative(cfg *Config, ld *Loaded, spec *PropSpec, path string) ReplayRe
 	}
 	var rf ReplayFile
 	json.Unmarshal(b, &rf)
-	race := spec.RaceReplay && strings.Contains(rf.Label, "shared-state")
+	race := spec.RaceReplay && strings.Contains(rf.Label, "shared")
 	out, runErr := nativeRun(cfg, ld, spec, path, 150*time.Second, race)
 	if race {
 		if strings.Contains(out, "DATA RACE") {
